@@ -306,6 +306,87 @@ def bounded_work(nodes, leaves, what):
             signal.signal(signal.SIGVTALRM, old)
 
 
+_SUBCLASSES = {}
+COPY_UNSUPPORTED = {}       # (class, form) -> reason: copy forms the tree under test cannot apply to an object (left out, counted)
+POISON_KINDS = ("zoom-str", "zoom-none", "threshold-str", "catalog-none", "single-str", "quadkeys-bad")
+
+
+def _user_catalog_class(which):
+    """(j) catalogs of a USER SUBCLASS that overrides the documented accessors consistently; the accessors are the source of truth.
+    `negated`: the file stores longitude and latitude with the opposite sign; `lon360`: longitudes stored in the 0..360 convention"""
+    if which not in _SUBCLASSES:
+        from csep.core.catalogs import CSEPCatalog
+        if which == "negated":
+            class NegatedCoordinatesCatalog(CSEPCatalog):
+                def get_longitudes(self):
+                    return -self.catalog['longitude']
+
+                def get_latitudes(self):
+                    return -self.catalog['latitude']
+            _SUBCLASSES[which] = NegatedCoordinatesCatalog
+        else:
+            class Longitude360Catalog(CSEPCatalog):
+                def get_longitudes(self):
+                    lo = self.catalog['longitude']
+                    return numpy.where(lo >= 180.0, lo - 360.0, lo)
+            _SUBCLASSES[which] = Longitude360Catalog
+    return _SUBCLASSES[which]
+
+
+def _building_catalog(ev, subclass):
+    from csep.core.catalogs import CSEPCatalog
+    if subclass == "negated":
+        rows = [(str(i), 1000 * i, -la, -lo, 5.0, 4.0) for i, (lo, la) in enumerate(ev)]
+        return _user_catalog_class("negated")(data=rows, compute_stats=False)
+    if subclass == "lon360":
+        rows = []
+        for i, (lo, la) in enumerate(ev):
+            raw = lo + 360.0 if (lo < 0 and (lo + 360.0) - 360.0 == lo and lo + 360.0 >= 180.0) else lo     # only where exact
+            rows.append((str(i), 1000 * i, la, raw if raw < 180.0 or raw - 360.0 == lo else lo, 5.0, 4.0))
+        return _user_catalog_class("lon360")(data=rows, compute_stats=False)
+    return CSEPCatalog(data=[(str(i), 1000 * i, la, lo, 5.0, 4.0) for i, (lo, la) in enumerate(ev)], compute_stats=False)
+
+
+def poison_call(kind):
+    """(i) a builder call the library REJECTS, made and caught before the judged build: whatever it left behind (module-level
+    collectors, half-built state) must not show in the next grid. A tree that accepts the call is fine too: the result is dropped."""
+    from csep.core import regions
+    ev = [(10.0, -10.0), (10.0, -10.0), (100.0, -50.0), (-100.0, -20.0), (20.0, 30.0), (-30.0, 40.0)]    # all four root tiles
+    cat = _building_catalog(ev, None)
+    try:
+        with bounded_work(400, 300, "rejected builder call"):
+            if kind == "zoom-str":
+                regions.QuadtreeGrid2D.from_catalog(cat, 0, zoom='8')
+            elif kind == "zoom-none":
+                regions.QuadtreeGrid2D.from_catalog(cat, 1, zoom=None)
+            elif kind == "threshold-str":
+                regions.QuadtreeGrid2D.from_catalog(cat, 'x', zoom=3)
+            elif kind == "catalog-none":
+                regions.QuadtreeGrid2D.from_catalog(None, 1, zoom=3)
+            elif kind == "single-str":
+                regions.QuadtreeGrid2D.from_single_resolution('3')
+            elif kind == "quadkeys-bad":
+                regions.QuadtreeGrid2D.from_quadkeys(['0', '1x', '2'])
+        return "accepted"
+    except Runaway:
+        return "cut-off"
+    except Exception as ex:
+        return type(ex).__name__
+
+
+def copy_region(r, form):
+    import copy
+    import pickle
+    key = (type(r).__name__, form)
+    if key in COPY_UNSUPPORTED:
+        return None
+    try:
+        return {"copy": copy.copy, "deepcopy": copy.deepcopy, "pickle": lambda x: pickle.loads(pickle.dumps(x))}[form](r)
+    except Exception as ex:
+        COPY_UNSUPPORTED[key] = f"{type(ex).__name__}: {ex}"[:120]
+        return None
+
+
 def _build(kind, params):
     """build the region from a replayable description"""
     from csep.core import regions
@@ -313,14 +394,14 @@ def _build(kind, params):
     kw = {}
     if params.get("mags"):
         kw = dict(magnitudes=numpy.array([4.0, 5.0, 6.5]), name="c17-named")
+    poisoned = poison_call(params["poison"]) if params.get("poison") else None
     if kind == "single":
         z = int(params["zoom"])
         with bounded_work((4 ** (max(z, 1) + 1) - 4) // 3, 4 ** max(z, 1), f"from_single_resolution({z})"):
             r = regions.QuadtreeGrid2D.from_single_resolution(params["zoom"], **kw)
     elif kind == "catalog":
         ev = [(float.fromhex(a), float.fromhex(b)) for a, b in params["events"]]
-        cat = CSEPCatalog(data=[(str(i), 1000 * i, la, lo, 5.0, 4.0) for i, (lo, la) in enumerate(ev)],
-                          compute_stats=False)
+        cat = _building_catalog(ev, params.get("subclass"))
         zoom_eff = 11 if params["zoom"] is None else int(params["zoom"])
         leaves, nodes = expected_refinement(params["threshold"], zoom_eff, ev)
         with bounded_work(nodes, leaves, f"from_catalog(threshold={params['threshold']}, zoom={params['zoom']}, {len(ev)} events)"):
@@ -337,7 +418,13 @@ def _build(kind, params):
         r = regions.california_quadtree_region()
     else:
         raise ValueError(kind)
+    copied = None
+    if params.get("copy"):
+        r2 = copy_region(r, params["copy"])      # (h) the region is used through its copy / pickle image from here on
+        copied = r2 is not None
+        r = r if r2 is None else r2
     g = Grid(kind, params, r, list(r.quadkeys))
+    g.poisoned, g.copied = poisoned, copied
     # binding of magnitudes / name is not part of C17 (C03 uses region.magnitudes): recorded, never a verdict
     g.bound = None if not kw else bool(r.name == "c17-named" and r.magnitudes is not None
                                        and numpy.array_equal(numpy.asarray(r.magnitudes), kw["magnitudes"]))
@@ -1099,7 +1186,9 @@ def _brute_cartesian(b, data):
 SESSION_OPS = ("index", "index_int", "index_array", "masked", "cartesian", "bbox", "area", "origins", "midpoints", "to_dict",
                "location_of", "edit_area", "edit_cartesian", "edit_dict", "edit_origins", "edit_index_array",
                # round 6: returned arrays edited by the caller, caller-owned input arrays re-used after an in-place change, call forms
-               "edit_midpoints", "edit_masked", "edit_bbox", "reuse_arrays", "index_keyword", "index_one_element")
+               "edit_midpoints", "edit_masked", "edit_bbox", "reuse_arrays", "index_keyword", "index_one_element",
+               # round 7 (i): a call the library rejects, caught by the caller; the calls after it must answer like a fresh region
+               "rejected_call")
 
 
 def check_session(run, drv, pend, g, rng, steps, ops=None):
@@ -1167,6 +1256,20 @@ def check_session(run, drv, pend, g, rng, steps, ops=None):
                         fail(i, f"get_masked = {got}, a fresh region gives {exp}")
                     if op == "edit_masked" and isinstance(mres, numpy.ndarray) and mres.size:
                         mres[...] = ~mres if mres.dtype == bool else 1
+                elif op == "rejected_call":
+                    kind_ = int(numpy.random.default_rng(sd).integers(0, 4))
+                    try:
+                        if kind_ == 0:
+                            r.get_index_of([1.0, 2.0, 3.0], [1.0])                 # coordinate arrays of different lengths
+                        elif kind_ == 1:
+                            r.get_cartesian(numpy.ones(n + 3))                      # data of the wrong length
+                        elif kind_ == 2:
+                            r.get_location_of([n + 10 ** 6])                        # an index beyond the last cell
+                        else:
+                            r.get_masked([1.0, 2.0], [1.0, "x"])                    # a non-numeric latitude
+                        run.count("session:rejected-call:accepted")
+                    except Exception as ex_:
+                        run.count("session:rejected-call:" + type(ex_).__name__)
                 elif op == "edit_bbox":
                     bb_ = r.get_bbox()
                     if isinstance(bb_, (list, numpy.ndarray)):      # a mutable bounding box handed out: the caller scribbles on it
@@ -1463,7 +1566,14 @@ def _try_build(run, kind, params):
         run.count("build:skipped-after-two-cut-offs")      # the runaway is reported (with replays); no need to sit through more
         return None
     try:
-        return _build(kind, params)
+        g_ = _build(kind, params)
+        if g_.poisoned is not None:
+            run.count(f"poison:{params['poison']}:{g_.poisoned}")
+        if g_.copied is not None:
+            run.count(f"region-copy:{params['copy']}:{'ok' if g_.copied else 'unsupported-by-the-tree'}")
+        if params.get("subclass"):
+            run.count(f"user-catalog-subclass:{params['subclass']}")
+        return g_
     except Runaway as ex:
         run.count("build:cut-off")
         run.oracle_failure(dict(kind=kind, params=params, check="build"),
@@ -1763,12 +1873,34 @@ def gen_keyset(rng, nested=False):
     return leaves
 
 
+def numeric_state(flag):
+    """(k) numpy.errstate(divide='raise', invalid='raise') and a 3-digit decimal context around calls on valid inputs"""
+    import contextlib
+    import decimal
+    st = contextlib.ExitStack()
+    if flag:
+        st.enter_context(numpy.errstate(divide="raise", invalid="raise"))
+        ctx = st.enter_context(decimal.localcontext())
+        ctx.prec = 3
+    return st
+
+
 def run_grid(run, drv, pend, g, rng, budget, partition_expected, prefix_free=True, cart_limit=3e6):
+    numeric = rng.random() < 0.2
+    if numeric:
+        run.count("numeric-state:errstate+decimal")
+    with numeric_state(numeric):
+        _run_grid(run, drv, pend, g, rng, budget, partition_expected, prefix_free, cart_limit, numeric)
+
+
+def _run_grid(run, drv, pend, g, rng, budget, partition_expected, prefix_free, cart_limit, numeric):
     guarded(run, g, "structure", check_structure, run, drv, pend, g, partition_expected)
     guarded(run, g, "order", check_order, run, drv, pend, g, rng, 12 if budget <= 300 else 24)
     guarded(run, g, "cartesian", check_cartesian, run, drv, pend, g, partition_expected, prefix_free, cart_limit)
     guarded(run, g, "api", check_api, run, drv, pend, g, rng, prefix_free)
     pts = gen_queries(rng, g, budget)
+    if numeric:      # NaN / infinite coordinates are not valid inputs: under the raising error state they are left out
+        pts = [q for q in pts if all(math.isfinite(v) for v in q)]
     # batches keep replays small
     B = 64
     for i in range(0, len(pts), B):
@@ -1781,6 +1913,7 @@ def run(run, rng, tier):
     import time
     drv, pend = Driver(), []
     run.extra["awaiting_decision"] = [f"{w['id']} ({w['cls']}): {w['what']}" for w in AWAITING_DECISION]
+    run.extra["copy_forms_unsupported_by_the_tree"] = COPY_UNSUPPORTED
     thorough = tier == "thorough"
     t0 = [time.time()]
     sect = run.extra.setdefault("section_s", {})
@@ -1799,7 +1932,12 @@ def run(run, rng, tier):
     lap("corpus")
     # 1. single resolution, all tiles
     for z in range(1, 9 if thorough else 8):
-        g = _try_build(run, "single", dict(zoom=z, mags=True) if z % 3 == 2 else dict(zoom=z))
+        extra7 = {}
+        if z in (2, 4, 6):
+            extra7["poison"] = rng.choice(POISON_KINDS)          # (i) a rejected builder call before this build
+        if z in (1, 3, 5):
+            extra7["copy"] = rng.choice(["copy", "deepcopy", "pickle"])      # (h) the grid is used through its copy
+        g = _try_build(run, "single", dict(zoom=z, mags=True, **extra7) if z % 3 == 2 else dict(zoom=z, **extra7))
         if g is None:
             continue
         run.count("grid-single")
@@ -1831,8 +1969,16 @@ def run(run, rng, tier):
         if zoom is None:
             n = rng.choice([6, 12, 30])
         ev = gen_events(rng, kind, n, zoom if zoom is not None else 11)
+        extra7 = {}
+        k7 = rng.random()
+        if k7 < 0.3:
+            extra7["subclass"] = rng.choice(["negated", "lon360"])          # (j) a user catalog class with consistent accessors
+        elif k7 < 0.55:
+            extra7["poison"] = rng.choice(POISON_KINDS)
+        if rng.random() < 0.3:
+            extra7["copy"] = rng.choice(["copy", "deepcopy", "pickle"])
         g = _try_build(run, "catalog", dict(threshold=thr, zoom=zoom, events=[[hexs(a), hexs(b)] for a, b in ev], gen=kind,
-                                            **(dict(mags=True) if rng.random() < 0.25 else {})))
+                                            **(dict(mags=True) if rng.random() < 0.25 else {}), **extra7))
         if g is None:
             continue
         run.count("grid-catalog-" + kind)
@@ -1854,7 +2000,12 @@ def run(run, rng, tier):
         if nested and i % 10 == 9:
             # the root key '' (mercantile: the whole square) among its descendants: first listed cell wins
             keys.insert(rng.randrange(1, len(keys) + 1), "")
-        g = _try_build(run, "quadkeys", dict(keys=keys, nested=nested, **(dict(mags=True) if i % 4 == 1 else {})))
+        extra7 = {}
+        if i % 3 == 1:
+            extra7["copy"] = rng.choice(["copy", "deepcopy", "pickle"])
+        if i % 4 == 2:
+            extra7["poison"] = rng.choice(POISON_KINDS)
+        g = _try_build(run, "quadkeys", dict(keys=keys, nested=nested, **(dict(mags=True) if i % 4 == 1 else {}), **extra7))
         if g is None:
             continue
         run.count("grid-quadkeys-nested" if nested else "grid-quadkeys")
